@@ -61,7 +61,7 @@ Definition dec_op (v : tval) : op := dec_op_at 0 v.
 Definition dec_inj (v : tval) : option (N * op) :=
   let a := vn (vnth 5 v) in if a =? 0 then None else Some (a - 1, dec_op_at 6 v).
 
-Definition dec_variant (v : tval) : variant := if vn v =? 0 then Pinned else if vn v =? 2 then Head else Current.
+Definition dec_variant (v : tval) : variant := if vn v =? 0 then Pinned else if vn v =? 2 then Head else if vn v =? 3 then Head2 else Current.
 Definition dec_cfg (v : tval) : cfg := {| maxConn := vn (vnth 0 v); maxCtl := vn (vnth 1 v); hbTimeout := vn (vnth 2 v) |}.
 
 (* cloud-control calls of every plain (not interleaved) step, predicted from the state BEFORE it; the 4th configuration entry
